@@ -1,5 +1,5 @@
 (** Proofs about the model of proxy/grpc_handler.go (Model/GrpcPool.v). *)
-From Coq Require Import String List NArith Bool Lia.
+From Coq Require Import String List NArith Bool Lia Permutation.
 From Fabio Require Import Lib.Outcome Lib.Bytes Model.GrpcPool.
 Import ListNotations.
 Local Open Scope N_scope.
@@ -111,6 +111,26 @@ Proof.
   apply Hn. rewrite <- E. apply in_map. tauto.
 Qed.
 
+(* ---- sequentially, newConnection's check-and-set always stores ---- *)
+Lemma dial_miss s u :
+  (assoc u (p_pool s) = None \/ exists c, assoc u (p_pool s) = Some c /\ live s c = false) ->
+  p_dial s u = p_dial_set s u.
+Proof.
+  intros H. unfold p_dial, p_log_dial, p_set_if_absent, p_dial_set. cbn [p_pool p_shut p_next p_dials].
+  destruct H as [H|[c [H L]]]; rewrite H; [reflexivity|].
+  unfold live in L. apply negb_false_iff in L. rewrite L. cbn [negb]. now rewrite andb_false_r.
+Qed.
+Lemma p_get_unfold s u :
+  p_get s u = match assoc u (p_pool s) with
+              | Some c => if live s c then (s, c) else p_dial_set s u
+              | None => p_dial_set s u
+              end.
+Proof.
+  unfold p_get. destruct (assoc u (p_pool s)) as [c|] eqn:E.
+  - destruct (live s c) eqn:L; [reflexivity|]. apply dial_miss. right. exists c. tauto.
+  - apply dial_miss. now left.
+Qed.
+
 (* ---- well-formed pool states ---- *)
 Record wf (s : pstate) : Prop := {
   wf_pool : forall k c, In (k, c) (p_pool s) -> c < p_next s;
@@ -123,9 +143,9 @@ Record wf (s : pstate) : Prop := {
 Lemma wf_init : wf p_init.
 Proof. constructor; cbn; try tauto; constructor. Qed.
 
-Lemma wf_dial s u : wf s -> wf (fst (p_dial s u)).
+Lemma wf_dial s u : wf s -> wf (fst (p_dial_set s u)).
 Proof.
-  intros [H1 H2 H3 H4 H5]. unfold p_dial. cbn [fst]. constructor; cbn [p_pool p_next p_shut p_dials].
+  intros [H1 H2 H3 H4 H5]. unfold p_dial_set. cbn [fst]. constructor; cbn [p_pool p_next p_shut p_dials].
   - intros k c [H|H]; [inversion H; subst; lia|]. apply remove_key_In in H. destruct H as [H _]. apply H1 in H. lia.
   - intros c H. apply H2 in H. lia.
   - cbn [map fst]. constructor; [|now apply remove_key_nodup_fst].
@@ -137,7 +157,7 @@ Proof.
 Qed.
 Lemma wf_get s u : wf s -> wf (fst (p_get s u)).
 Proof.
-  intros W. unfold p_get. destruct (assoc u (p_pool s)) as [c|]; [destruct (live s c); [exact W|]|]; now apply wf_dial.
+  intros W. rewrite p_get_unfold. destruct (assoc u (p_pool s)) as [c|]; [destruct (live s c); [exact W|]|]; now apply wf_dial.
 Qed.
 Lemma wf_tick urls s : wf s -> wf (p_tick urls s).
 Proof.
@@ -168,27 +188,27 @@ Qed.
 
 (* ---- Get re-uses the pooled live connection ---- *)
 Lemma get_reuse s u c : assoc u (p_pool s) = Some c -> live s c = true -> p_get s u = (s, c).
-Proof. intros H L. unfold p_get. now rewrite H, L. Qed.
+Proof. intros H L. rewrite p_get_unfold. now rewrite H, L. Qed.
 
 Lemma get_fresh s u : (assoc u (p_pool s) = None \/ exists c, assoc u (p_pool s) = Some c /\ live s c = false) ->
-  p_get s u = p_dial s u.
-Proof. intros [H|[c [H L]]]; unfold p_get; rewrite H; [reflexivity | now rewrite L]. Qed.
+  p_get s u = p_dial_set s u.
+Proof. intros [H|[c [H L]]]; rewrite p_get_unfold; rewrite H; [reflexivity | now rewrite L]. Qed.
 
 (* [u] has the live connection [c] in the pool *)
 Definition holds (s : pstate) (u : url) (c : N) : Prop := assoc u (p_pool s) = Some c /\ live s c = true.
 
 Lemma get_holds s u : wf s -> holds (fst (p_get s u)) u (snd (p_get s u)).
 Proof.
-  intros W. unfold p_get.
+  intros W. rewrite p_get_unfold.
   destruct (assoc u (p_pool s)) as [c|] eqn:E; [destruct (live s c) eqn:L; [split; assumption|]|];
-    (unfold p_dial, holds, live; cbn [fst snd p_pool p_shut assoc]; rewrite beq_refl; split; [reflexivity|];
+    (unfold p_dial_set, holds, live; cbn [fst snd p_pool p_shut assoc]; rewrite beq_refl; split; [reflexivity|];
      destruct (memN (p_next s) (p_shut s)) eqn:M; [|reflexivity];
      apply memN_In in M; apply (wf_shut s W) in M; lia).
 Qed.
 
-Lemma dial_other_holds s u v c : v <> u -> holds s u c -> holds (fst (p_dial s v)) u c.
+Lemma dial_other_holds s u v c : v <> u -> holds s u c -> holds (fst (p_dial_set s v)) u c.
 Proof.
-  intros N [H L]. unfold p_dial, holds, live. cbn [fst p_pool p_shut assoc].
+  intros N [H L]. unfold p_dial_set, holds, live. cbn [fst p_pool p_shut assoc].
   destruct (beq u v) eqn:E; [apply beq_eq in E; congruence|].
   rewrite assoc_remove_other by congruence. split; assumption.
 Qed.
@@ -196,7 +216,7 @@ Lemma get_keeps_holds s u v c : holds s u c -> holds (fst (p_get s v)) u c /\ (v
 Proof.
   intros H. destruct (list_eq_dec N.eq_dec v u) as [->|Nq].
   - destruct H as [H L]. rewrite (get_reuse s u c H L). cbn [fst]. split; [split; assumption | reflexivity].
-  - split; [|congruence]. unfold p_get.
+  - split; [|congruence]. rewrite p_get_unfold.
     destruct (assoc v (p_pool s)) as [c'|]; [destruct (live s c'); [exact H|]|]; now apply dial_other_holds.
 Qed.
 
@@ -242,14 +262,14 @@ Proof.
 Qed.
 
 (* dials for a target *)
-Lemma count_dials_dial s u v : count_dials (fst (p_dial s v)) u = count_dials s u + (if beq v u then 1 else 0).
+Lemma count_dials_dial s u v : count_dials (fst (p_dial_set s v)) u = count_dials s u + (if beq v u then 1 else 0).
 Proof.
-  unfold count_dials, p_dial. cbn [fst p_dials]. rewrite filter_app, app_length, Nat2N.inj_add. cbn [filter snd].
+  unfold count_dials, p_dial_set. cbn [fst p_dials]. rewrite filter_app, app_length, Nat2N.inj_add. cbn [filter snd].
   destruct (beq v u); reflexivity.
 Qed.
 Lemma count_dials_get_other s u v : v <> u -> count_dials (fst (p_get s v)) u = count_dials s u.
 Proof.
-  intros Nq. unfold p_get.
+  intros Nq. rewrite p_get_unfold.
   destruct (assoc v (p_pool s)) as [c|]; [destruct (live s c); [reflexivity|]|];
     (rewrite count_dials_dial; destruct (beq v u) eqn:E; [apply beq_eq in E; congruence | lia]).
 Qed.
@@ -432,12 +452,12 @@ Lemma tick_keeps_routed urls s u c : wf s -> In u urls -> holds s u c -> holds (
 Proof. exact (tick_keeps_holds urls s u c). Qed.
 
 Lemma get_shut s v : p_shut (fst (p_get s v)) = p_shut s.
-Proof. unfold p_get. destruct (assoc v (p_pool s)) as [c|]; [destruct (live s c)|]; reflexivity. Qed.
+Proof. rewrite p_get_unfold. destruct (assoc v (p_pool s)) as [c|]; [destruct (live s c)|]; reflexivity. Qed.
 Lemma get_other_assoc s u v : v <> u -> assoc u (p_pool (fst (p_get s v))) = assoc u (p_pool s).
 Proof.
-  intros Nq. unfold p_get.
+  intros Nq. rewrite p_get_unfold.
   destruct (assoc v (p_pool s)) as [c|]; [destruct (live s c); [reflexivity|]|];
-    (unfold p_dial; cbn [fst p_pool assoc]; destruct (beq u v) eqn:E; [apply beq_eq in E; congruence|];
+    (unfold p_dial_set; cbn [fst p_pool assoc]; destruct (beq u v) eqn:E; [apply beq_eq in E; congruence|];
      apply assoc_remove_other; congruence).
 Qed.
 
@@ -541,9 +561,9 @@ Definition accounted (s : pstate) : Prop :=
 
 Lemma accounted_dial s u :
   wf s -> (assoc u (p_pool s) = None \/ exists c, assoc u (p_pool s) = Some c /\ live s c = false) ->
-  accounted s -> accounted (fst (p_dial s u)).
+  accounted s -> accounted (fst (p_dial_set s u)).
 Proof.
-  intros W Hd A c v H. unfold p_dial in *. cbn [fst p_dials p_shut p_pool] in *.
+  intros W Hd A c v H. unfold p_dial_set in *. cbn [fst p_dials p_shut p_pool] in *.
   apply in_app_or in H. destruct H as [H|[H|[]]].
   - destruct (A c v H) as [S|P]; [now left|].
     destruct (list_eq_dec N.eq_dec v u) as [->|Nq].
@@ -556,7 +576,7 @@ Proof.
 Qed.
 Lemma accounted_get s u : wf s -> accounted s -> accounted (fst (p_get s u)).
 Proof.
-  intros W A. unfold p_get. destruct (assoc u (p_pool s)) as [c|] eqn:E.
+  intros W A. rewrite p_get_unfold. destruct (assoc u (p_pool s)) as [c|] eqn:E.
   - destruct (live s c) eqn:L; [exact A|]. apply accounted_dial; auto. right. exists c. tauto.
   - apply accounted_dial; auto.
 Qed.
@@ -618,8 +638,8 @@ Proof.
   destruct st as [urls s]. cbn [snd]. intros W [[u0 D] [M P]].
   assert (Hlt : c < p_next s) by (apply (wf_dials s W c u0 D)).
   destruct o as [v|t| |v]; cbn [p_step snd].
-  - unfold p_get. destruct (assoc v (p_pool s)) as [c0|]; [destruct (live s c0); [repeat split; eauto|]|];
-      (unfold p_dial; cbn [fst]; split; [exists u0; cbn [p_dials]; apply in_or_app; now left|];
+  - rewrite p_get_unfold. destruct (assoc v (p_pool s)) as [c0|]; [destruct (live s c0); [repeat split; eauto|]|];
+      (unfold p_dial_set; cbn [fst]; split; [exists u0; cbn [p_dials]; apply in_or_app; now left|];
        split; [exact M|]; cbn [p_pool]; intros k [H|H];
        [inversion H; lia | apply remove_key_In in H; now apply (P k)]).
   - repeat split; eauto.
@@ -643,8 +663,8 @@ Theorem concurrent_dial_leak u :
   a = Done 0 /\ b = Done 1 /\ orphan s 0 = true /\ count_dials s u = 2 /\ wf s /\
   forall urls ops, orphan (snd (p_run (urls, s) ops)) 0 = true.
 Proof.
-  unfold leak_sched. cbn [run2 thread_step p_init p_pool assoc p_dial p_next p_shut p_dials remove_key app].
-  change (0 + 1) with 1. cbn [run2 thread_step p_dial p_next p_pool p_shut p_dials remove_key app].
+  unfold leak_sched. cbn [run2 thread_step p_init p_pool assoc p_dial_set p_next p_shut p_dials remove_key app].
+  change (0 + 1) with 1. cbn [run2 thread_step p_dial_set p_next p_pool p_shut p_dials remove_key app].
   rewrite beq_refl. cbn [remove_key].
   set (s := mkp [(u, 1)] (1 + 1) [] [(0, u); (1, u)]).
   assert (W : wf s).
@@ -665,7 +685,7 @@ Theorem sequential_get_no_leak u :
   let '(s, a, b) := run2 p_init u AtRead AtRead [false; false; true; true] in
   a = Done 0 /\ b = Done 0 /\ count_dials s u = 1 /\ forall c, orphan s c = false.
 Proof.
-  cbn [run2 thread_step p_init p_pool assoc p_dial p_next p_shut p_dials remove_key app].
+  cbn [run2 thread_step p_init p_pool assoc p_dial_set p_next p_shut p_dials remove_key app].
   rewrite beq_refl. unfold live. cbn [p_shut memN existsb negb].
   repeat split.
   - unfold count_dials. cbn [p_dials filter snd]. rewrite beq_refl. reflexivity.
@@ -755,3 +775,256 @@ Example relay_within_limits_nonvacuous :
   relay_sized 1048576 8388608 10 2097152 = mksized true false 8 /\
   relay_sized 1048576 8388608 2097152 10 = mksized false false 8.
 Proof. vm_compute. repeat split. Qed.
+
+(* ---- any number of callers inside Get for one target, the code as it is (8fc2c4a) ---- *)
+Definition pend1 (p : gpc) : list N := match p with GSet c => [c] | _ => [] end.
+Definition pending (ths : list gpc) : list N := flat_map pend1 ths.
+Lemma pending_mid l1 p l2 : pending (l1 ++ p :: l2) = pending l1 ++ pend1 p ++ pending l2.
+Proof. unfold pending. rewrite flat_map_app. reflexivity. Qed.
+
+(* pending = dialled by a caller that has not reached its check-and-set yet *)
+Record ginv (s : pstate) (u : url) (ths : list gpc) : Prop := {
+  gi_wf : wf s;
+  gi_lt : forall c, In c (pending ths) -> c < p_next s;
+  gi_nodup : NoDup (pending ths);
+  gi_live : forall c, In c (pending ths) -> ~ In c (p_shut s);
+  gi_unpooled : forall c k, In c (pending ths) -> ~ In (k, c) (p_pool s);
+  gi_for_u : forall c v, In c (pending ths) -> In (c, v) (p_dials s) -> v = u;
+  gi_acc : forall c v, In (c, v) (p_dials s) ->
+             memN c (p_shut s) = true \/ In (v, c) (p_pool s) \/ In c (pending ths);
+  gi_done : forall c, In (GDone c) ths -> holds s u c
+}.
+
+Lemma NoDup_middle_insert {A} (a : A) l1 l2 : ~ In a (l1 ++ l2) -> NoDup (l1 ++ l2) -> NoDup (l1 ++ a :: l2).
+Proof. intros H N. apply (Permutation_NoDup (Permutation_middle l1 l2 a)). now constructor. Qed.
+
+Lemma in_mid {A} (x : A) l1 p l2 : In x (l1 ++ p :: l2) <-> x = p \/ In x (l1 ++ l2).
+Proof. rewrite !in_app_iff. cbn [In]. intuition congruence. Qed.
+
+(* a step that changes neither the state nor the set of pending connections *)
+Lemma ginv_same s u l1 p p1 l2 :
+  pend1 p = [] -> pend1 p1 = [] -> (forall c, p1 = GDone c -> holds s u c) ->
+  ginv s u (l1 ++ p :: l2) -> ginv s u (l1 ++ p1 :: l2).
+Proof.
+  intros E E1 Hd [W Lt Nd Lv Up Fu Acc Dn]. rewrite pending_mid, E in *.
+  constructor; rewrite ?pending_mid, ?E1; auto.
+  intros c H. apply in_mid in H. destruct H as [H|H]; [now apply Hd | apply Dn; apply in_mid; now right].
+Qed.
+
+Lemma ginv_dial s u l1 l2 :
+  ginv s u (l1 ++ GDial :: l2) -> ginv (fst (p_log_dial s u)) u (l1 ++ GSet (p_next s) :: l2).
+Proof.
+  intros [W Lt Nd Lv Up Fu Acc Dn]. rewrite pending_mid in *. cbn [pend1 app] in *.
+  unfold p_log_dial. cbn [fst].
+  constructor; cbn [p_pool p_next p_shut p_dials]; rewrite ?pending_mid; cbn [pend1 app].
+  - destruct W as [H1 H2 H3 H4 H5]. constructor; cbn [p_pool p_next p_shut p_dials]; auto.
+    + intros k c H. apply H1 in H. lia.
+    + intros c H. apply H2 in H. lia.
+    + intros c v H. apply in_app_or in H. destruct H as [H|[H|[]]]; [apply H5 in H; lia | inversion H; lia].
+  - intros c H. apply in_app_or in H. destruct H as [H|[H|H]]; [|subst; lia|];
+      (assert (c < p_next s) by (apply Lt; apply in_or_app; tauto); lia).
+  - apply NoDup_middle_insert; [|exact Nd]. intros H. apply Lt in H. lia.
+  - intros c H. apply in_app_or in H. destruct H as [H|[H|H]].
+    + apply Lv. apply in_or_app. tauto.
+    + subst. intros X. apply (wf_shut s W) in X. lia.
+    + apply Lv. apply in_or_app. tauto.
+  - intros c k H. apply in_app_or in H. destruct H as [H|[H|H]].
+    + apply Up. apply in_or_app. tauto.
+    + subst. intros X. apply (wf_pool s W) in X. lia.
+    + apply Up. apply in_or_app. tauto.
+  - intros c v H D. apply in_app_or in D. destruct D as [D|[D|[]]]; [|now inversion D].
+    apply in_app_or in H. destruct H as [H|[H|H]].
+    + apply (Fu c v); [apply in_or_app; tauto | exact D].
+    + subst. apply (wf_dials s W) in D. lia.
+    + apply (Fu c v); [apply in_or_app; tauto | exact D].
+  - intros c v H. apply in_app_or in H. destruct H as [H|[H|[]]].
+    + destruct (Acc c v H) as [A|[A|A]]; auto. right. right.
+      apply in_app_or in A. apply in_or_app. destruct A; [now left | right; now right].
+    + inversion H; subst. right. right. apply in_or_app. right. now left.
+  - intros c H. apply in_mid in H. destruct H as [H|H]; [discriminate|].
+    destruct (Dn c) as [D1 D2]; [apply in_mid; now right|]. split; assumption.
+Qed.
+
+Lemma ginv_set s u l1 c l2 :
+  ginv s u (l1 ++ GSet c :: l2) ->
+  ginv (fst (p_set_if_absent s u c)) u (l1 ++ GDone (snd (p_set_if_absent s u c)) :: l2).
+Proof.
+  intros [W Lt Nd Lv Up Fu Acc Dn]. rewrite pending_mid in *. cbn [pend1 app] in *.
+  assert (Cin : In c (pending l1 ++ c :: pending l2)) by (apply in_or_app; right; now left).
+  pose proof (Lt c Cin) as Clt. pose proof (Lv c Cin) as Clive. pose proof (Up c) as Cup.
+  assert (Others : forall c', In c' (pending l1 ++ pending l2) -> c' <> c /\ In c' (pending l1 ++ c :: pending l2)).
+  { intros c' H. split.
+    - intros ->. apply NoDup_remove_2 in Nd. contradiction.
+    - apply in_app_or in H. apply in_or_app. destruct H; [now left | right; now right]. }
+  assert (Nd' : NoDup (pending l1 ++ pending l2)) by (now apply NoDup_remove_1 in Nd).
+  (* the two outcomes of the critical section *)
+  assert (Cases : (exists cur, assoc u (p_pool s) = Some cur /\ cur <> c /\ memN cur (p_shut s) = false /\
+                     p_set_if_absent s u c = (mkp (p_pool s) (p_next s) (c :: p_shut s) (p_dials s), cur)) \/
+                  ((forall cur, assoc u (p_pool s) = Some cur -> memN cur (p_shut s) = true) /\
+                     p_set_if_absent s u c = (mkp ((u, c) :: remove_key u (p_pool s)) (p_next s) (p_shut s) (p_dials s), c))).
+  { unfold p_set_if_absent. destruct (assoc u (p_pool s)) as [cur|] eqn:E.
+    - destruct (negb (cur =? c) && negb (memN cur (p_shut s))) eqn:B.
+      + left. apply andb_true_iff in B. destruct B as [B1 B2]. apply negb_true_iff in B1, B2. apply N.eqb_neq in B1.
+        exists cur. tauto.
+      + right. split; [|reflexivity]. intros cur' Hc. inversion Hc; subst cur'.
+        apply andb_false_iff in B. destruct B as [B|B]; apply negb_false_iff in B; [|exact B].
+        apply N.eqb_eq in B. subst cur. exfalso. apply assoc_In in E. now apply (Cup u Cin).
+    - right. split; [discriminate | reflexivity]. }
+  destruct Cases as [[cur [E [B1 [B2 R]]]]|[Dead R]]; rewrite R; cbn [fst snd].
+  - (* a live connection is pooled: the new one is closed, the pooled one returned *)
+    constructor; cbn [p_pool p_next p_shut p_dials]; rewrite ?pending_mid; cbn [pend1 app].
+    + destruct W as [H1 H2 H3 H4 H5]. constructor; cbn [p_pool p_next p_shut p_dials]; auto.
+      intros c' [H|H]; [subst; exact Clt | now apply H2].
+    + intros c' H. apply Lt. now apply Others.
+    + exact Nd'.
+    + intros c' H [X|X]; apply Others in H; destruct H as [H1 H2]; [congruence | now apply (Lv c')].
+    + intros c' k H. apply Up. now apply Others.
+    + intros c' v H. apply Fu. now apply Others.
+    + intros c' v H. destruct (Acc c' v H) as [A|[A|A]].
+      * left. unfold memN. cbn [existsb]. fold (memN c' (p_shut s)). rewrite A. apply orb_true_r.
+      * right. now left.
+      * apply in_app_or in A. destruct A as [A|[A|A]].
+        -- right. right. apply in_or_app. now left.
+        -- subst. left. unfold memN. cbn [existsb]. now rewrite N.eqb_refl.
+        -- right. right. apply in_or_app. now right.
+    + intros r H. apply in_mid in H.
+      assert (Hc : holds (mkp (p_pool s) (p_next s) (c :: p_shut s) (p_dials s)) u cur).
+      { split; cbn [p_pool]; [exact E|]. unfold live, memN. cbn [p_shut existsb]. fold (memN cur (p_shut s)).
+        rewrite B2. rewrite orb_false_r. apply negb_true_iff. apply N.eqb_neq. congruence. }
+      destruct H as [H|H]; [inversion H; subst; exact Hc|].
+      destruct (Dn r) as [D1 D2]; [apply in_mid; now right|]. rewrite E in D1. inversion D1; subst. exact Hc.
+  - (* nothing live is pooled: the new connection is stored *)
+    assert (NoDone : forall r, In (GDone r) (l1 ++ l2) -> False).
+    { intros r H. destruct (Dn r) as [D1 D2]; [apply in_mid; now right|]. apply Dead in D1.
+      unfold live in D2. rewrite D1 in D2. discriminate. }
+    constructor; cbn [p_pool p_next p_shut p_dials]; rewrite ?pending_mid; cbn [pend1 app].
+    + destruct W as [H1 H2 H3 H4 H5]. constructor; cbn [p_pool p_next p_shut p_dials]; auto.
+      * intros k c' [H|H]; [inversion H; subst; exact Clt|]. apply remove_key_In in H. destruct H as [H _]. now apply H1 in H.
+      * cbn [map fst]. constructor; [|now apply remove_key_nodup_fst].
+        intros H. apply in_map_iff in H. destruct H as [[k c'] [Ek H]]. cbn in Ek; subst. apply remove_key_In in H. tauto.
+      * cbn [map snd]. constructor; [|now apply remove_key_nodup_snd].
+        intros H. apply in_map_iff in H. destruct H as [[k c'] [Ek H]]. cbn in Ek; subst. apply remove_key_In in H.
+        destruct H as [H _]. now apply (Cup k Cin).
+    + intros c' H. apply Lt. now apply Others.
+    + exact Nd'.
+    + intros c' H. apply Lv. now apply Others.
+    + intros c' k H [X|X]; [inversion X; subst; apply Others in H; destruct H; congruence|].
+      apply remove_key_In in X. destruct X as [X _]. apply Others in H. destruct H as [_ H]. now apply (Up c' k H).
+    + intros c' v H. apply Fu. now apply Others.
+    + intros c' v H. destruct (Acc c' v H) as [A|[A|A]].
+      * now left.
+      * destruct (list_eq_dec N.eq_dec v u) as [->|Nq].
+        -- left. apply Dead. now apply In_assoc_nodup; [apply (wf_keys s W)|].
+        -- right. left. right. apply remove_key_In. tauto.
+      * apply in_app_or in A. destruct A as [A|[A|A]].
+        -- right. right. apply in_or_app. now left.
+        -- subst c'. right. left. left. rewrite (Fu c v Cin H). reflexivity.
+        -- right. right. apply in_or_app. now right.
+    + intros r H. apply in_mid in H. destruct H as [H|H]; [|exfalso; now apply (NoDone r)].
+      inversion H; subst. split; cbn [p_pool assoc]; [now rewrite beq_refl|].
+      unfold live. cbn [p_shut]. destruct (memN c (p_shut s)) eqn:M; [apply memN_In in M; contradiction | reflexivity].
+Qed.
+
+Lemma ginv_step s u l1 p l2 :
+  ginv s u (l1 ++ p :: l2) -> ginv (fst (gstep s u p)) u (l1 ++ snd (gstep s u p) :: l2).
+Proof.
+  intros I. destruct p as [| |c|c]; cbn [gstep].
+  - cbn [fst snd]. apply (ginv_same s u l1 GRead _ l2); [reflexivity | | | exact I].
+    + destruct (assoc u (p_pool s)) as [c0|]; [destruct (live s c0)|]; reflexivity.
+    + intros c H. destruct (assoc u (p_pool s)) as [c0|] eqn:E; [destruct (live s c0) eqn:L|]; inversion H; subst. split; assumption.
+  - unfold p_log_dial at 1 2. cbn [fst snd]. apply (ginv_dial s u l1 l2 I).
+  - destruct (p_set_if_absent s u c) as [s2 r] eqn:R. cbn [fst snd].
+    pose proof (ginv_set s u l1 c l2 I) as H. rewrite R in H. exact H.
+  - cbn [fst snd]. exact I.
+Qed.
+
+Lemma gstep_at_inv s u ths i : ginv s u ths -> ginv (fst (gstep_at s u ths i)) u (snd (gstep_at s u ths i)).
+Proof.
+  intros I. unfold gstep_at. destruct (nth_error ths i) as [p|] eqn:E; [|exact I].
+  destruct (nth_error_split ths i E) as [l1 [l2 [-> Hl]]].
+  destruct (gstep s u p) as [s1 p1] eqn:G. cbn [fst snd].
+  assert (F1 : firstn i (l1 ++ p :: l2) = l1).
+  { subst i. rewrite firstn_app, PeanoNat.Nat.sub_diag, firstn_all. cbn [firstn]. apply app_nil_r. }
+  assert (F2 : skipn (S i) (l1 ++ p :: l2) = l2).
+  { subst i. rewrite skipn_app. replace (S (List.length l1) - List.length l1)%nat with 1%nat by lia.
+    rewrite skipn_all2 by lia. reflexivity. }
+  rewrite F1, F2. pose proof (ginv_step s u l1 p l2 I) as H. rewrite G in H. exact H.
+Qed.
+
+Lemma grun_inv sched : forall s u ths, ginv s u ths -> ginv (fst (grun s u ths sched)) u (snd (grun s u ths sched)).
+Proof.
+  induction sched as [|i r IH]; intros s u ths I; cbn [grun]; [exact I|].
+  destruct (gstep_at s u ths i) as [s1 ths1] eqn:G. apply IH.
+  pose proof (gstep_at_inv s u ths i I) as H. rewrite G in H. exact H.
+Qed.
+
+Lemma pending_repeat_read n : pending (repeat GRead n) = [].
+Proof. induction n as [|n IH]; [reflexivity | exact IH]. Qed.
+Lemma ginv_start s u n : wf s -> accounted s -> ginv s u (repeat GRead n).
+Proof.
+  intros W A. constructor; rewrite ?pending_repeat_read.
+  - exact W.
+  - intros c [].
+  - constructor.
+  - intros c [].
+  - intros c k [].
+  - intros c v [].
+  - intros c v H. destruct (A c v H) as [X|X]; [now left | right; now left].
+  - intros c H. apply repeat_spec in H. discriminate.
+Qed.
+Lemma pending_all_done ths : forallb g_done ths = true -> pending ths = [].
+Proof.
+  induction ths as [|p ths IH]; [reflexivity|]. cbn [forallb]. intros H. apply andb_true_iff in H. destruct H as [H1 H2].
+  unfold pending. cbn [flat_map]. fold (pending ths). rewrite (IH H2). destruct p; try discriminate. reflexivity.
+Qed.
+
+(* For EVERY schedule of any number of concurrent Gets for one target, from any well-formed
+   state without orphans: once all callers are finished, one live connection is pooled for the
+   target, every caller was handed exactly that connection, and every connection ever dialled
+   is pooled or closed. *)
+Theorem concurrent_gets_converge sched s u n :
+  wf s -> accounted s ->
+  let s' := fst (grun s u (repeat GRead n) sched) in
+  let ths' := snd (grun s u (repeat GRead n) sched) in
+  forallb g_done ths' = true ->
+  wf s' /\ accounted s' /\ (forall c, orphan s' c = false) /\
+  forall c, In (GDone c) ths' -> holds s' u c.
+Proof.
+  intros W A s' ths' D.
+  pose proof (grun_inv sched s u (repeat GRead n) (ginv_start s u n W A)) as I. fold s' ths' in I.
+  destruct I as [W' Lt Nd Lv Up Fu Acc Dn]. rewrite (pending_all_done ths' D) in Acc.
+  assert (A' : accounted s').
+  { intros c v H. destruct (Acc c v H) as [X|[X|[]]]; auto. }
+  split; [exact W'|]. split; [exact A'|]. split; [|exact Dn].
+  intros c. unfold orphan. destruct (existsb (fun d => fst d =? c) (p_dials s')) eqn:E; [|reflexivity]. cbn [andb].
+  apply existsb_exists in E. destruct E as [[c' v] [Hin E]]. cbn [fst] in E. apply N.eqb_eq in E. subst c'.
+  destruct (A' c v Hin) as [S|P].
+  - unfold live. rewrite S. reflexivity.
+  - destruct (live s' c); [|reflexivity]. cbn [andb]. apply negb_false_iff. apply existsb_exists.
+    exists (v, c). split; [exact P | apply N.eqb_refl].
+Qed.
+
+(* all callers share one connection *)
+Corollary concurrent_gets_one_connection sched s u n c1 c2 :
+  wf s -> accounted s ->
+  let ths' := snd (grun s u (repeat GRead n) sched) in
+  forallb g_done ths' = true -> In (GDone c1) ths' -> In (GDone c2) ths' -> c1 = c2.
+Proof.
+  intros W A ths' D H1 H2.
+  destruct (concurrent_gets_converge sched s u n W A D) as [_ [_ [_ Hd]]].
+  destruct (Hd c1 H1) as [E1 _]. destruct (Hd c2 H2) as [E2 _]. congruence.
+Qed.
+
+(* the schedule that leaked a connection before 8fc2c4a: both read (miss), both dial, both set *)
+Example concurrent_gets_nonvacuous u :
+  let r := grun p_init u [GRead; GRead] [0; 1; 0; 1; 0; 1]%nat in
+  snd r = [GDone 0; GDone 0] /\ p_pool (fst r) = [(u, 0)] /\ p_shut (fst r) = [1] /\ count_dials (fst r) u = 2.
+Proof.
+  cbn [grun gstep_at nth_error gstep p_init p_pool assoc firstn skipn app p_log_dial p_next p_shut p_dials fst snd].
+  change (0 + 1) with 1. change (1 + 1) with 2.
+  unfold p_set_if_absent. cbn [p_pool p_next p_shut p_dials assoc remove_key].
+  cbn [grun gstep_at nth_error gstep firstn skipn app fst snd].
+  unfold p_set_if_absent. cbn [p_pool p_next p_shut p_dials assoc]. rewrite beq_refl.
+  change (negb (0 =? 1) && negb (memN 0 [])) with true. cbn [fst snd p_pool p_shut].
+  repeat split. unfold count_dials. cbn [p_dials filter snd]. rewrite beq_refl. reflexivity.
+Qed.
